@@ -301,6 +301,26 @@ func stackBurst(c *vlib.Cases, r *vlib.Rng, engine string, n int, prefix, epType
 		Echo    *echo  `json:"echo"`
 		Model   string `json:"model"`
 	}
+	// earlier clients whose upload broke off half way (declared length, half the body, connection closed): whatever the
+	// handlers do with a failed body read must leave the requests that come after it alone
+	for k := 0; k < 3; k++ {
+		_, body := mkBody(r, 900+k, 20000+k*30000, true)
+		if anthPT {
+			_, body = mkAnthropicBody(r, 900+k, 20000+k*30000)
+		}
+		target := prefix + "v1/chat/completions"
+		if anthPT {
+			target = prefix + "v1/messages"
+		}
+		if conn, err := net.DialTimeout("tcp", s.Addr, 2*time.Second); err == nil {
+			fmt.Fprintf(conn, "POST %s HTTP/1.1\r\nHost: %s\r\nContent-Type: application/json\r\nContent-Length: %d\r\n\r\n", target, s.Addr, len(body))
+			conn.Write(body[:len(body)/2])
+			time.Sleep(20 * time.Millisecond)
+			conn.Close()
+		}
+	}
+	time.Sleep(30 * time.Millisecond)
+	b.Taken()
 	res := make([]sent, n)
 	var wg sync.WaitGroup
 	sizes := []int{0, 1, 17, 300, 4096, 65536, 1<<20 - 1, 1 << 20, 1<<20 + 1, 3 << 20}
@@ -604,6 +624,11 @@ func main() {
 		for _, cf := range cfgs {
 			stackBurst(c, r, engine, 4, cf.prefix, cf.ty, cf.base, cf.preserve)
 			c.Count("stack.prefixes")
+		}
+		// the Anthropic passthrough route under load (the handler buffers the whole body before it forwards it)
+		for rep := 0; rep < 3; rep++ {
+			stackBurst(c, r, engine, 48, "/olla/anthropic/", "vllm", "", false)
+			c.Count("stack.anthropic-passthrough")
 		}
 	}
 	// large uploads that fail over after the first endpoint consumed part of them (sizes around typical buffer / limit
